@@ -95,7 +95,7 @@ FloatPool == <<
 
 BoolPool == << [txt |-> "true", b |-> TRUE], [txt |-> "false", b |-> FALSE] >>
 
-\* strings of verdict scenarios: letters, digits, blanks and _ - .   (quotes, $ ... are outside the claim)
+\* strings of verdict scenarios: letters, digits, blanks and _ - . ,   (quotes, $ ... are outside the claim)
 StrPool == <<
   [txt |-> "ab",            len |-> 2,  blank |-> FALSE],
   [txt |-> "cd",            len |-> 2,  blank |-> FALSE],
@@ -109,7 +109,11 @@ StrPool == <<
   [txt |-> "visc-alpha beta-gamma rho-max k-eps x-y delta-t cfl-limit re-start ab-cd out-dir visc-alpha beta-gamma rho-max k-eps x-y delta-t cfl-limit re-start",
    len |-> 147, blank |-> TRUE ],
   [txt |-> "visc-alpha  k-eps  cfl-limit  out-dir  rho-max  delta-t  ab-cd  beta-gamma  x-y  re-start  visc-alpha  k-eps  cfl-limit  out-dir  rho-max  delta-t  ab-cd  beta-gamma  x-y  re-start  visc-alpha  k-eps  cfl-limit  out-dir  rho-max  delta-t  ab-cd  beta-gamma  x-y  re-start",
-   len |-> 271, blank |-> TRUE ] >>
+   len |-> 271, blank |-> TRUE ],
+  \* commas inside a value are characters of the value, also where the line is long (any splitting at commas shows)
+  [txt |-> "1,3-butadiene", len |-> 13, blank |-> FALSE],
+  [txt |-> "n-butane,1,3-butadiene,iso-octane,2,2,4-trimethylpentane,cyclo-hexane,1,2-dichloroethane,m-xylene,2,3-dimethylbutane,tert-butanol,1,4-dioxane",
+   len |-> 141, blank |-> FALSE] >>
 
 ASSUME \A i \in 1..Len(StrPool) : Len(StrPool[i].txt) = StrPool[i].len
 
